@@ -8,9 +8,9 @@ import zigpy.serial
 
 import zigpy_zboss.config as conf
 from zigpy_zboss import types as t
-from zigpy_zboss.checksum import CRC8
+from zigpy_zboss.checksum import CRC8, CRC16
 from zigpy_zboss.exceptions import InvalidFrame
-from zigpy_zboss.frames import Frame
+from zigpy_zboss.frames import Frame, HLPacket
 from zigpy_zboss.logger import SERIAL_LOGGER
 
 LOGGER = logging.getLogger(__name__)
@@ -227,6 +227,14 @@ class ZbossNcpProtocol(asyncio.Protocol):
         # At this point we should have a complete frame
         # If not, deserialization will fail and the error will propapate up
         frame, rest = Frame.deserialize(self._buffer)
+
+        flags = frame.ll_header.flags
+        if not flags & (t.LLFlags.isACK | t.LLFlags.FirstFrag):
+            # Continuation fragments carry their own body checksum too
+            check, body = t.uint16_t.deserialize(frame.hl_packet.data)
+            if check != CRC16(body).digest():
+                raise InvalidFrame("Crc calculation error.")
+            frame.hl_packet = HLPacket(None, body)
 
         # If we get this far then we have a valid frame. Update the buffer.
         del self._buffer[: len(self._buffer) - len(rest)]
